@@ -14,7 +14,7 @@ LEVEL_TEXT = ("Static structural proof of necessary conditions: (R7.1) every nor
               "computed from the single adjustment (1 + header) computed in validate; (R7.3) in the closure of "
               "SpreadsheetValidator.validate no possibly-None conversion result is used arithmetically or "
               "dereferenced unguarded. Equality with string-level validation and shuffle invariance are NOT decided.")
-LEVEL_EXTRA = "Added after the seeded evaluation: (R7.4) the column-structure checks see the caller's table, not the onset-sorted copy; (R7.5) the onset pass maps back to file rows through original_index; (R7.6) a row is excluded from the row-level and temporal checks only under an error-severity test."
+LEVEL_EXTRA = "Added after the seeded evaluation: (R7.4) the column-structure checks see the caller's table, not the onset-sorted copy; (R7.5) the onset pass maps back to file rows through original_index; (R7.6) a row is excluded from the row-level and temporal checks only under an error-severity test. (R7.7) no issue list is discarded inside the table-validation modules; (R7.8) a column assigned during assembly carries the frame's own index; (R7.9) index labels are never used as positions (or vice versa) in the validators and df_util, and the per-row mask is computed over the file's own rows."
 
 FUNCS = ["validate", "_run_checks", "_run_onset_checks", "_validate_column_structure"]
 
@@ -141,6 +141,88 @@ def run(ctx):
                   "of its cell issues: a row whose cells only draw warnings loses its row-level errors and its Onset/Offset markers",
                   desc="row marked failed only under check_for_any_errors(...)")
     ctx.floor("R7.6", "sites marking a row as failed", len(marks), 1)
+
+    # ---- R7.8: values computed row by row are put back by position, not by index label
+    ctx.rule("R7.8", "a column assigned during assembly carries the frame's own index (no default-index Series aligned by label)")
+    n_cols = 0
+    for f in prog.functions.values():
+        if f.module.name not in ("hed.models.df_util", "hed.models.base_input", "hed.models.column_mapper"):
+            continue
+        rdf = None
+        for st in walk_no_nested(f.node):
+            if not (isinstance(st, ast.Assign) and len(st.targets) == 1 and isinstance(st.targets[0], ast.Subscript)
+                    and isinstance(st.targets[0].value, ast.Name)):
+                continue
+            vals = [st.value]
+            if isinstance(st.value, ast.Name):
+                rdf = rdf or ReachingDefs(f)
+                vals = [d.value for d in (rdf.at(st, st.value.id) or []) if d.kind == "assign" and d.value is not None]
+            for v_ in vals:
+                if isinstance(v_, ast.Call) and call_name(v_) == "Series" and not any(k.arg == "index" for k in v_.keywords) \
+                        and v_.args and not isinstance(v_.args[0], (ast.Dict, ast.Name, ast.Attribute)):
+                    n_cols += 1
+                    ctx.saw(f)
+                    ok = False
+                    why = ""
+                    if f.name == "_filter_by_index_list":
+                        # frozen exception: its only DataFrame caller resets the index to 0..n-1 immediately before
+                        sdt = prog.find_function("df_util.split_delay_tags")
+                        vs = view(ctx, sdt)
+                        resets = [n_ for (n_, c) in vs.calls(lambda c: call_name(c) == "reset_index")]
+                        filt = [n_ for (n_, c) in vs.calls(lambda c: call_name(c) == "filter_series_by_onset")]
+                        others = [c_ for (k, c_, n_) in cg.callers.get(f, []) if k in ("precise", "name") and c_.name not in ("filter_series_by_onset",)]
+                        ok = bool(resets) and bool(filt) and all(any(vs.dominates(r, x) for r in resets) for x in filt) and not others
+                        why = " (exception for _filter_by_index_list no longer holds: split_delay_tags must reset the index before filtering)"
+                    ctx.check(ok, "R7.8", f.qualname, st, loc(f, st),
+                              "`%s` assigns a Series built with the default index 0..n-1 into `%s`: pandas aligns it by index label, so "
+                              "when the frame's index is not 0..n-1 in order (the validator sorts unordered files and keeps the labels) "
+                              "each value lands in the row whose *label* equals its *position* — annotations and row labels no longer "
+                              "follow the rows%s" % (norm(st)[:60], norm(st.targets[0].value), why),
+                              desc="%s: column assigned with the frame's index" % f.short)
+    ctx.ok("R7.8", "%d default-index Series assigned into a frame column in the assembly modules (only the frozen exception)" % n_cols, "")
+
+    # ---- R7.9: index labels and positions are not interchanged
+    ctx.rule("R7.9", "an index label (iterrows/items/.index) is never used as a position (.iloc/.iat) nor a position as a label; "
+                     "the per-row mask consulted with file-row labels is computed over the file's rows")
+    from sa.labels import confusions
+    n_idx = 0
+    for f in prog.functions.values():
+        if not (f.module.name.startswith("hed.validator.") or f.module.name == "hed.models.df_util"):
+            continue
+        k, conf = confusions(f)
+        n_idx += k
+        if k:
+            ctx.saw(f)
+        for sub, var, what in conf:
+            ctx.violation("R7.9", f.qualname, sub, loc(f, sub),
+                          "`%s`: %s (`%s`). The two agree only while the index is 0..n-1 in order; the table validator sorts "
+                          "unordered files (and n/a onsets sort last) keeping the labels, so another row's value is read and the "
+                          "row is skipped or checked twice" % (norm(sub)[:50], what, var))
+    ctx.ok("R7.9", "%d .iloc/.iat/.loc/.at uses in the validators and df_util: no label/position confusion" % n_idx, "")
+    ctx.floor("R7.9", "indexer uses in the validators and df_util", n_idx, 3)
+    # the mask handed to the per-row pass is indexed there by file-row label: it must not be computed from the split table
+    rdv = ReachingDefs(validate)
+    n_mask = 0
+    for c in walk_no_nested(validate.node):
+        if isinstance(c, ast.Call) and call_name(c) == "_run_checks":
+            for kw in c.keywords:
+                if kw.arg and "mask" in kw.arg:
+                    n_mask += 1
+                    bad = depends_on(rdv, kw.value, c, lambda y: isinstance(y, ast.Call) and call_name(y) == "split_delay_tags")
+                    ctx.check(not bad, "R7.9", validate.qualname, c, loc(validate, c),
+                              "the per-row mask `%s` is computed from the result of split_delay_tags (rows sorted, Delay groups added, "
+                              "index renumbered) but `_run_checks` looks it up with the file row's label" % norm(kw.value),
+                              desc="per-row mask computed over the file's own rows")
+    ctx.floor("R7.9", "masks passed to the per-row pass", n_mask, 1)
+
+    # ---- R7.7: nothing a callee reports is thrown away on the way to the table's result
+    ctx.rule("R7.7", "no issue list returned inside the table-validation modules is discarded")
+    from sa.issues import check_no_dropped_issues
+    mods7 = ("hed.validator.spreadsheet_validator", "hed.models.base_input", "hed.models.column_mapper", "hed.models.tabular_input",
+             "hed.models.spreadsheet_input", "hed.validator.onset_validator")
+    sc7 = [f for f in prog.functions.values() if f.module.name in mods7]
+    ns7 = check_no_dropped_issues(ctx, "R7.7", sc7)
+    ctx.floor("R7.7", "issue-producing calls in the table-validation modules", ns7, 10)
 
     # ---- R7.3
     closure = cg.reachable([validate], STRONG_KINDS)
